@@ -325,7 +325,10 @@ fn mount_image(wroot: &Path, image: &Image) -> SimFs {
 fn observe_image(ctx: &mut Ctx, image: &Image) -> ImageObs {
   let fs = mount_image(ctx.wroot, image);
   fs.with(|c| c.record = false);
-  let open = match Session::open(ctx.cfg, &ctx.root, Some(fs.clone())) {
+  // half of the images are reopened the way an "open or create" application
+  // does: a damaged or half-written manifest must never be taken for "no index"
+  let create_if_missing = image.hash % 2 == 1;
+  let open = match Session::open_with(ctx.cfg, &ctx.root, Some(fs.clone()), create_if_missing) {
     Ok(s) => match s.observe() {
       Ok(obs) => obs.to_contents(),
       Err(o) => Err(format!("reader/search failed: {}", o.short())),
